@@ -586,7 +586,7 @@ PROPS["C03"] = {'claimed': False,
  'assumptions': ['histories allowed by the FdlApplication contract (C15)',
                  'bytes 0..255, addresses 0..125, max_retry_limit 1..15 (ParametersBuilder bounds)']}
 
-PROPS["C04"] = {'claimed': False,
+PROPS["C04"] = {'claimed': True,
  'coq': 'Properties/C04.v',
  'domains': ['dp'],
  'nontrivial': ['dp:step:transmit', 'dp:step:reply', 'dp:step:timeout'],
@@ -600,15 +600,38 @@ PROPS["C04"] = {'claimed': False,
                   'reference slave coq/Model/Slave.v (environment, written against the PROFIBUS standard, not the crate) and its Rust twin in '
                   'harness/src/dp.rs, compared on every slave reply',
                   'the FdlApplication contract (C15) as the space of histories; harness emulates the FDL reply admission filter'],
- 'technique': 'phase 1: model + correspondence + executable monitor; one-step theorems',
- 'level_text': 'Phase 1: model, correspondence, process-image monitor (DpOracle.c04_monitor) on every implementation transcript; one-step theorems '
-               'over all states: C04_pi_i_frame, C04_request_carries_pi_q. Missing for a claim: C04_event_iff, C04_others_untouched (master level), '
-               'C04_end_to_end.',
+ 'technique': 'Coq theorems about the Gallina model of Peripheral / DpMaster: one-step theorems from ALL peripheral and master states, history '
+              'theorems by monitor + invariant over arbitrary callback lists (framework of C14History.v), composition with the FDL station model '
+              '(poll with DP masters as applications, C15) + differential correspondence + the executable process-image monitor on the '
+              'implementation transcript',
+ 'level_text': 'Machine-checked (Coq 8.16.1, closed under the global context; coq/Properties/C04.v, proofs coq/Proofs/C04Proofs.v + DpStepProofs.v + '
+               'C14History.v) about the Gallina model of src/dp/peripheral.rs + master.rs. dx_accepts p t := p in PreDataExchange / DataExchange, no '
+               'diagnostics request in flight, and t a data response with status Ok/DataLow/DataHigh of exactly length(pi_i) bytes '
+               '(DpOracle.dx_reply_payload, the predicate of the executable monitor) or an SC for an input-less peripheral. C04_event_iff (every '
+               'peripheral state, every telegram): DataExchanged is returned iff dx_accepts; pi_i is then the payload byte for byte and unchanged '
+               'otherwise; pi_q unchanged. C04_others_untouched (every master state): a reply is handled by the peripheral whose turn is in progress '
+               '(address = addr); every other slot is identical afterwards; its pi_q is unchanged; DataExchanged is in last_events iff dx_accepts, '
+               'with that slot handle. C04_transmit_touches_no_image: transmit_telegram changes no image and reports no event but Offline. '
+               'C04_images_history: over arbitrary histories pi_i changes only in receive_reply for the slot whose turn it is, pi_q only by the user '
+               'write to that slot (and then equals what was written). C04_wrong_replies_harmless: a reply that is not dx_accepts (wrong length, '
+               'error status, wrong kind, wrong state) changes no image of any peripheral; C04_reply_total_peripheral / _master / '
+               'C04_no_crash_history: SC / response telegrams never panic Peripheral::receive_reply (active frame count bit), admissible replies for '
+               'the outstanding request never panic DpMaster::receive_reply, and that precondition holds after every history respecting the '
+               'FdlApplication contract. C04_pi_q_user_writes: over arbitrary histories with user writes anywhere every Data_Exchange request '
+               'carries exactly the output image as last written by the user if the master is in Operate at that transmit callback, zeros of the '
+               'same length in Clear; the master never changes pi_q. C04_request_carries_pi_q / C04_pi_i_frame (one-step, phase 1). C04_end_to_end / '
+               '_effect: in the FDL station model running DP masters as applications (poll, any receive buffer, any state, any time) every telegram '
+               'handed to receive_reply is admissible (SC or response from the addressed station to this master; via C15 poll_reply_shape) - wrong '
+               'source / destination, requests, tokens never reach it - and is then processed without panic with the effect above. Model tied to the '
+               'crate by the dp correspondence check and the c04 monitor.',
  'level_note': 'Trusted: Coq kernel, translator (gen/translate.py, gen/tr_dp.py), extraction + OCaml driver, Rust harness; hand model validated '
                'differentially, not verified.',
  'design_ref': 'DESIGN.md section 4, C04',
- 'assumptions': ['histories allowed by the FdlApplication contract (C15)',
-                 'bytes 0..255, addresses 0..125, max_retry_limit 1..15 (ParametersBuilder bounds)']}
+ 'assumptions': ['histories = arbitrary callback lists (C04_no_crash_history: respecting the FdlApplication contract, C15)',
+                 'bytes 0..255; fixed peripheral set during a history'],
+ 'partial_gap': 'the wire bytes of a request are related to (header, pdu) by send_data / the codec theorems of C09, not re-stated here; add() during '
+                'a history is not covered (fixed peripheral set); C04_end_to_end_effect takes the waiting master state as satisfying safe_inv '
+                '(proved invariant of contract-respecting histories) rather than re-deriving it inside the FDL run.'}
 
 PROPS["C07"] = {'claimed': False,
  'coq': 'Properties/C07.v',
@@ -658,7 +681,7 @@ PROPS["C08"] = {'claimed': False,
  'assumptions': ['histories allowed by the FdlApplication contract (C15)',
                  'bytes 0..255, addresses 0..125, max_retry_limit 1..15 (ParametersBuilder bounds)']}
 
-PROPS["C14"] = {'claimed': False,
+PROPS["C14"] = {'claimed': True,
  'coq': 'Properties/C14.v',
  'domains': ['dp'],
  'nontrivial': ['dp:step:transmit', 'dp:step:reply', 'dp:step:timeout'],
@@ -672,15 +695,50 @@ PROPS["C14"] = {'claimed': False,
                   'reference slave coq/Model/Slave.v (environment, written against the PROFIBUS standard, not the crate) and its Rust twin in '
                   'harness/src/dp.rs, compared on every slave reply',
                   'the FdlApplication contract (C15) as the space of histories; harness emulates the FDL reply admission filter'],
- 'technique': 'phase 1: model + correspondence + executable cycle/event monitor; termination theorem',
- 'level_text': 'Phase 1: model, correspondence, cycle and event life-cycle monitor (DpOracle.c14_monitor); C14_turn_ends / C14_loop_bound: '
-               'transmit_telegram returns within #slots+2 loop iterations for every master state. Missing for a claim: C14_one_turn_each, '
-               'C14_cycle_completed_once, C14_no_event_lost, C14_lifecycle.',
+ 'technique': 'Coq history theorems about the Gallina model of DpMaster / Peripheral: instrumented (ghost-logged) copies of the callbacks with an '
+              'erasure theorem, a relational characterisation of one slot-loop call, monitors over arbitrary callback histories with explicit '
+              'invariants (one-step lemma for every callback from every state satisfying the invariant, lift by induction) + differential '
+              'correspondence of the model + the executable cycle/event monitor on the implementation transcript',
+ 'level_text': 'Machine-checked (Coq 8.16.1, closed under the global context; coq/Properties/C14.v, proofs coq/Proofs/C14History.v) about the '
+               'Gallina model of src/dp/master.rs + peripheral_set.rs + peripheral.rs (after fixes F4 F6 F10-F14). Histories = ARBITRARY lists of '
+               'callbacks on the master from any start state with the stated invariant: transmit_telegram / receive_reply / handle_timeout, '
+               'take_last_events, request_diagnostics, pi_q writes, enter_state, in any order, any reply telegram, any loss (time-out or the request '
+               'simply dropped = token given up mid-cycle), any times; ALL slot vectors (empty, all None, sparse); a panic ends the run (every '
+               'theorem holds for every prefix up to a panic). The peripheral set is fixed during a history (add() is not a callback). Ghost log per '
+               'callback = the calls made to Peripheral::transmit_telegram / receive_reply; C14_ghost_erasure: the instrumented functions and run '
+               'are exactly the model plus the log. C14_one_turn_each: the monitor cycle_item accepts every history - a request is sent only by the '
+               'head of `rem` (occupied slots still due in this pass), a turn ends only for the head of rem which is then removed, rem always equals '
+               'the concrete cycle position (occupied slots at or after the cycle index; after an event-ended call (F11) the next slot), occupancy '
+               'never changes; so between two cycle_completed reports every occupied slot gets exactly one turn in slot order. '
+               'C14_cycle_completed_once: per callback from every state with the invariant, cycle_completed is reported iff the scheduler ran and '
+               'the last turn of the pass ended in that callback (empty master: iff the scheduler ran), and then all occupied slots are due again. '
+               'C14_turn_is_one_request: all transmissions of one turn carry the same frame count bit and there are at most 1+max_retry_limit of '
+               'them. C14_call_shape: one transmit call = silent turn ends, then a request (returns Some) or ONE turn ending with Offline (returns '
+               'None, F11) or the end of the pass. C14_no_event_lost: with take_last_events after every FdlApplication callback (extra takes allowed '
+               'anywhere) the events collected at each callback are exactly the events the Peripheral objects produced in it (with the slot handle), '
+               'cycle_completed collected iff reported; whole sequences equal (none lost, none duplicated, order kept). C14_lifecycle (+_init, '
+               '_public): per slot the event word is accepted by the life-cycle automaton DpOracle.l_step (the same one the executable monitor runs '
+               'on the implementation) and after every callback the automaton state agrees with every peripheral (Off iff not live, Cfg whenever '
+               '(Pre)DataExchange hence whenever is_running), for max_retry_limit >= 1. C14_gc_interleaving / C14_gc_when_due (one call, every '
+               'state): a global control broadcast is written only by a HighPrioOnly::No transmit of a non-stopped master when due, and always when '
+               'due, whatever the cycle position; it is an SDN request (expects no reply), cycle position / slots / operating state untouched, event '
+               'slot emptied; C14_gc_interval: between two broadcasts without enter_state in between >= slot_time x 50 (regenerated constant). '
+               'C14_zero_peripherals (+_history): an empty master returns None at once having reported cycle_completed (unless stopped / broadcast '
+               'due), in every history, and never processes a reply (F4). C14_contract_safe: after any history respecting the FdlApplication '
+               'contract a reply within the contract is processed without panic (the unreachable!() sites are unreachable). C14_turn_ends / '
+               'C14_loop_bound: the call returns within #slots+2 loop iterations from every state. Non-vacuity: C14_history_example (sparse slots, '
+               'GC, Online, time-out, Offline ending a call, two completed cycles). The model is tied to the crate by the dp correspondence check (0 '
+               'divergences) and the c14 monitor on the implementation transcript.',
  'level_note': 'Trusted: Coq kernel, translator (gen/translate.py, gen/tr_dp.py), extraction + OCaml driver, Rust harness; hand model validated '
                'differentially, not verified.',
  'design_ref': 'DESIGN.md section 4, C14',
- 'assumptions': ['histories allowed by the FdlApplication contract (C15)',
-                 'bytes 0..255, addresses 0..125, max_retry_limit 1..15 (ParametersBuilder bounds)']}
+ 'assumptions': ['histories = arbitrary callback lists; C14_contract_safe additionally assumes the FdlApplication contract (C15)',
+                 'max_retry_limit >= 1 for C14_lifecycle (ParametersBuilder allows 1..15)',
+                 'peripheral set fixed during a history; fresh peripherals (Peripheral::new) or any start state satisfying the stated invariant'],
+ 'partial_gap': 'add() during a history is not covered (the peripheral set is fixed; the executable monitor marks such cycles and does not judge '
+                'them either). "Retransmission" is stated as: same frame count bit, same slot, at most 1+max_retry per turn - that the bytes repeat '
+                'is C08 (and not true of Data_Exchange when the user rewrites pi_q between retries). Freedom from the other panic sites (u8 index '
+                'for > 256 slots, Instant overflow, transmit buffer too small) is C05; theorems are stated up to a panic.'}
 
 PROPS["C13"] = {'claimed': True,
  'coq': 'Properties/C13.v',
